@@ -840,6 +840,8 @@ class Interp:
         return fr.lookup(e.id)
 
     def ex_JoinedStr(self, e, fr):
+        """f-string: concrete when every component is; otherwise a symbolic string that remembers its TEMPLATE
+        (`parts`: concrete text and symbolic components in order) so that output contracts can compare templates"""
         parts = []
         opaque = False
         for v in e.values:
@@ -848,20 +850,33 @@ class Interp:
             else:
                 try:
                     x = self.eval(v.value, fr)
-                except Unsupported as e:
+                except Unsupported as ex_:
                     # message text only: the component is opaque (assumed total and effect-free; listed)
                     note = f'f-string component `{ast.unparse(v.value)}` in {fr.qualname} treated as opaque text (assumed total, effect-free)'
                     if note not in self.ctx.notes:
                         self.ctx.notes.append(note)
                     opaque = True
+                    parts.append(VStr(self.ctx.fresh('fpart'), 'opaque'))
                     continue
                 if isinstance(x, (int, str)) and not isinstance(x, bool) and v.format_spec is None and v.conversion == -1:
                     parts.append(str(x))
+                elif isinstance(x, VStr) and getattr(x, 'parts', None) is not None and v.format_spec is None and v.conversion == -1:
+                    parts.extend(x.parts)
+                    opaque = True
                 else:
                     opaque = True
-        if opaque:
-            return VStr(self.ctx.fresh('fstr'), 'fstr')
-        return ''.join(parts)
+                    parts.append(x if v.format_spec is None and v.conversion == -1 else VStr(self.ctx.fresh('fpart'), 'formatted'))
+        if not opaque:
+            return ''.join(parts)
+        merged = []
+        for p_ in parts:
+            if isinstance(p_, str) and merged and isinstance(merged[-1], str):
+                merged[-1] += p_
+            else:
+                merged.append(p_)
+        r = VStr(self.ctx.fresh('fstr'), 'fstr')
+        r.parts = merged
+        return r
 
     def ex_Tuple(self, e, fr):
         return VTuple([self.eval(x, fr) for x in e.elts])
@@ -1296,6 +1311,10 @@ class Interp:
             if name == 'errno':
                 return o.args[0] if o.args else None
             raise Unsupported(f'exception attribute {name}')
+        import enum as _enum
+
+        if isinstance(o, _enum.Enum) and name in ('value', 'name'):
+            return getattr(o, name)
         if isinstance(o, (VBytes, VList, VTuple, VSeq, VDict, VStr, str, dict, list, tuple, set, frozenset)) or (isinstance(o, type) and o in (int, bytes, str, dict)):
             return VBound(o, None, name)
         if is_sym(o):
